@@ -49,7 +49,7 @@ REQUIRED = {"cases_slice": {t: n_slice_cases(t) for t in ("quick", "thorough")},
             "set:forms": 4, "set:sign_combos": 16,
             "neg_start_nonneg_stop_cases": {"quick": 1000, "thorough": 5000},
             "runs_error_source": {t: n_slice_cases(t) + n_index_cases(t) for t in ("quick", "thorough")},
-            "error_source_slice_decided_before_error": 100, "error_source_error_expected": 1000}
+            "error_source_slice_decided_before_error": 100, "error_source_error_expected": 1000, "reentrant_feed_cases": 2000}
 
 
 def exhaustive(tier: str) -> bool:
@@ -263,6 +263,53 @@ def observe_minus_one(n: int, res: UnitResult) -> None:
         res.count("unjudged:source[-1]_emitted_last")
 
 
+def reentrant_feed_cases(res: UnitResult, shard: int, of: int) -> None:
+    """list(source) is also well defined for a source that is fed from inside its own deliveries (a Subject whose next element
+    is published by the slice's subscriber from its on_next - a feedback loop): it is what a subscriber that subscribed first
+    saw. Judged only when that first subscriber saw exactly 0..N-1 (a slice that holds elements back makes the feeding
+    subscribers publish twice: that is a property of this set-up, not of the library, and is only counted)."""
+    from reactivex.subject import Subject
+    idxs = [None] + list(range(-4, 5))
+    k = 0
+    for n in range(0, 6):
+        for a in idxs:
+            for b in idxs:
+                for c in (None, 1, 2, 3):
+                    k += 1
+                    if k % of != shard:
+                        continue
+                    subject: Any = Subject()
+                    everything: list = []
+                    subject.subscribe(everything.append)
+                    got: list = []
+                    done: list = []
+                    errs: list = []
+
+                    def on_next(x: Any) -> None:
+                        got.append(x)
+                        if x + 1 < n:
+                            subject.on_next(x + 1)
+
+                    def pump(x: Any) -> None:
+                        if x + 1 < n and len(everything) == x + 1:
+                            subject.on_next(x + 1)
+                    subject[a:b:c].subscribe(on_next, errs.append, lambda: done.append(True))
+                    subject.subscribe(pump)
+                    if n:
+                        subject.on_next(0)
+                    subject.on_completed()
+                    if everything != list(range(n)):
+                        res.count("reentrant_setup_not_serial")
+                        continue
+                    exp = list(range(n))[a:b:c]
+                    res.count("reentrant_feed_cases")
+                    res.case(key=["reentrant", n, a, b, c], nontrivial=n >= 2)
+                    if got != exp or done != [True] or errs:
+                        res.violation("C07:reentrant-source", {"source": "Subject fed 0..%d from inside the deliveries" % (n - 1), "slice": [a, b, c],
+                                                               "expected": exp, "got": got, "completed": bool(done), "errors": [repr(e) for e in errs]},
+                                      {"case": {"n": n, "start": a, "stop": b, "step": c, "form": "reentrant"}})
+
+
 def run_unit(unit: dict, res: UnitResult) -> None:
     tier = unit["tier"]
     res.max_samples = 1
@@ -271,8 +318,9 @@ def run_unit(unit: dict, res: UnitResult) -> None:
         if idx % unit["of"] != unit["shard"]:
             continue
         run_case(case, tier, unit["seed"], res)
+    reentrant_feed_cases(res, unit["shard"], unit["of"])
     # keep the most telling witnesses: wrong values on a completing source first, smallest input first
-    res.violations.sort(key=lambda v: (v["mech"] != "C07:other", "then completion" not in v["detail"]["source"],
+    res.violations.sort(key=lambda v: (v["mech"] != "C07:other", "then completion" not in v["detail"].get("source", ""),
                                        v["replay"]["case"]["n"], v["replay"]["case"].get("step") or 0))
     kept = res.violations[:cap]
     for v in res.violations[cap:]:
@@ -285,4 +333,7 @@ def run_unit(unit: dict, res: UnitResult) -> None:
 
 
 def replay(rep: dict, res: UnitResult) -> None:
+    if rep["case"].get("form") == "reentrant":
+        reentrant_feed_cases(res, 0, 1)
+        return
     run_case(rep["case"], rep.get("tier", "thorough"), rep.get("seed", 0), res)
